@@ -640,6 +640,16 @@ pub fn c11_doc(r: &mut Rng) -> C11Doc {
             .into_iter()
             .map(|a| WLine { file: i, size: None, sum: Some((a, unique_hash(r, a, &mut serial))) })
             .collect();
+        // Sometimes an algorithm occurs twice (or three times) for one file:
+        // the statement records *each* recognised line, in line order.
+        if !own.is_empty() && r.chance(1, 4) {
+            for _ in 0..r.range(1, 2) {
+                let k = r.below(own.len());
+                if let Some((a, _)) = own[k].sum.clone() {
+                    own.push(WLine { file: i, size: None, sum: Some((a, unique_hash(r, a, &mut serial))) });
+                }
+            }
+        }
         if with_size {
             let pos = r.below(own.len() + 1);
             own.insert(pos, WLine { file: i, size: Some(gen_size(r)), sum: None });
